@@ -249,7 +249,9 @@ def run(ctx):
     grid = [-170.0, 170.0, -10.0, 95.5, -179.0, 179.0, 0.0, 180.0, -60.0, 60.0, -120.0, 12.25]
     types = [t for t in gen.AMINO if t not in ("GLY", "ALA")]
     tjobs = []
-    for i, t in enumerate(types if not ctx.quick else types[ctx.seed % 2::2] + ["CYS", "LYS"]):
+    # ... and the protonation-state variants the patches define (their torsion tables come from PATCHES.xml, not AA.xml)
+    states = [v for v in ("ASH", "GLH", "LYN", "CYM", "TYM", "HID", "HIE", "HIP", "ARN") if v in gen.definitions().map]
+    for i, t in enumerate((types if not ctx.quick else types[ctx.seed % 2::2] + ["CYS", "LYS"]) + states):
         seq = grid[:]
         rng.shuffle(seq)
         tjobs.append({"res": t, "seed": ctx.seed + i, "angles": [170.0, -170.0, 175.0, -175.0, 179.9, 60.0, 60.3, 60.1, -0.15, -120.0, -119.6, 0.2, 90.0, 449.75, -179.8, 33.0] + seq[:(6 if ctx.quick else 12)],
